@@ -200,3 +200,245 @@ Theorem failures_reach_plan : forall evs : list event, mon_fail (snd (run_tr ini
 Proof.
   intros evs. unfold mon_fail. destruct (FI_run evs init f0 FI_init) as [m' [E _]]. rewrite E. reflexivity.
 Qed.
+
+(* ================================================================ (b) what the answer True of a wait means *)
+Local Arguments put : simpl never.
+Local Arguments remove : simpl never.
+
+Lemma sset_length t i v : length (sset t i v) = length t.
+Proof. revert i; induction t as [|a t IH]; intros [|i]; cbn; auto. Qed.
+
+Lemma objdone_sset_other t i j v : i <> j -> objdone (sset t i v) j = objdone t j.
+Proof. intros N. unfold objdone. rewrite sget_sset_other by assumption. reflexivity. Qed.
+Lemma objdone_app t j : objdone (t ++ [SPend]) j = objdone t j.
+Proof.
+  unfold objdone. destruct (sget_app_pend t j) as [E|[[E1 E2]|[E1 E2]]]; rewrite ?E, ?E1, ?E2; reflexivity.
+Qed.
+
+Definition wprop (m : gst) (g : nat) (eot : bool) : Prop :=
+  forall sid, In (sid, g) (g_grp m) ->
+    mem sid (g_comp m) = true \/ (eot = false /\ is_some (flook sid (g_fin m)) = true) \/ mem g (g_lost m) = true.
+
+Lemma members_In g grp x : In x (members g grp) -> In (x, g) grp.
+Proof.
+  unfold members. rewrite in_map_iff. intros [[a b] [E H]]. cbn in E; subst.
+  apply filter_In in H. destruct H as [H1 H2]. cbn in H2. apply Nat.eqb_eq in H2. subst. exact H1.
+Qed.
+
+Lemma wait_ok_intro m i :
+  (forall g t eot wa, g_last m = Some (MWait g t eot wa) -> i = IVal (VBool true) -> wprop m g eot) ->
+  wait_ok false m i = true.
+Proof.
+  intros H. unfold wait_ok. destruct i as [[|[|]]|]; auto. destruct (g_last m) as [[g|g t eot wa|]|]; auto.
+  specialize (H g t eot wa eq_refl eq_refl). cbn.
+  destruct (mem g (g_lost m)) eqn:L; cbn; auto.
+  apply forallb_forall. intros x Hx. apply members_In in Hx.
+  destruct (H x Hx) as [A|[[A B]|A]].
+  - rewrite A. reflexivity.
+  - subst. rewrite B. apply orb_true_r.
+  - congruence.
+Qed.
+
+Definition same_wait (w w' : wt) : Prop :=
+  w_g w' = w_g w /\ w_futs w' = w_futs w /\ w_tmo w' = w_tmo w /\ w_eot w' = w_eot w /\
+  (forall b, w_sp w' = SFinished b -> w_sp w = SFinished b).
+
+Lemma rerelease_same t w : same_wait w (rerelease t w).
+Proof.
+  unfold rerelease, same_wait. destruct w as [g futs tmo eot sp wf wp]; cbn.
+  destruct sp as [[|]|b]; destruct wp as [|[|]| |]; cbn; repeat split; auto; intros; discriminate.
+Qed.
+
+Record GI (s : st) (m : gst) : Prop := mkGI {
+  gi_n : g_n m = length (stat s);
+  gi_comp : forall sid, mem sid (g_comp m) = resolved (stat s) sid;
+  gi_fin : forall sid, objdone (stat s) sid = true -> is_some (flook sid (g_fin m)) = true;
+  gi_grp : forall sid g, In (sid, g) (g_grp m) ->
+             resolved (stat s) sid = true \/ In sid (lookup g (groups s))
+             \/ (exists w, blk s = Some w /\ w_g w = g /\ In sid (w_futs w)) \/ mem g (g_lost m) = true;
+  gi_blk : forall w, blk s = Some w ->
+             (exists wa, g_last m = Some (MWait (w_g w) (w_tmo w) (w_eot w) wa)) /\ lookup (w_g w) (groups s) = []
+             /\ (w_sp w = SFinished false -> forallb (resolved (stat s)) (w_futs w) = true);
+  gi_true : blk s = None -> forall g t eot wa, g_last m = Some (MWait g t eot wa) ->
+             rsp s = Some (RVal (VBool true)) -> wprop m g eot }.
+
+Lemma GI_init : GI init g0.
+Proof.
+  constructor; cbn; auto; try discriminate; try contradiction.
+  - intros sid. unfold resolved, sget. destruct sid; reflexivity.
+  - intros sid. unfold objdone, sget. destruct sid; discriminate.
+Qed.
+
+Lemma delivery_true s : delivery s = Some (IVal (VBool true)) -> rsp s = Some (RVal (VBool true)).
+Proof.
+  unfold delivery. destruct (slot s); [discriminate|]. destruct (rsp s) as [[v|e]|]; try discriminate.
+  intros H; inversion H; reflexivity.
+Qed.
+
+Lemma delivery_wait_ok s m i : GI s m -> blk s = None -> delivery s = Some i -> wait_ok false m i = true.
+Proof.
+  intros I B D. apply wait_ok_intro. intros g t eot wa L E. subst i.
+  eapply (gi_true _ _ I B); eauto. apply delivery_true; assumption.
+Qed.
+
+Lemma forallb_resolved_mono (t t' : list sst) l :
+  (forall j, resolved t j = true -> resolved t' j = true) ->
+  forallb (resolved t) l = true -> forallb (resolved t') l = true.
+Proof. intros M H. rewrite forallb_forall in *. auto. Qed.
+
+Lemma GI_step s m e : GI s m -> exists m', wait_step false m (e, snd (step s e)) = Some m' /\ GI (fst (step s e)) m'.
+Proof.
+  intros I. unfold step. destruct (ended s) eqn:En; [exists m; split; [reflexivity|exact I]|].
+  assert (SK : exists m', wait_step false m (e, snd (skip s)) = Some m' /\ GI (fst (skip s)) m').
+  { exists m. split; [destruct e; reflexivity|exact I]. }
+  pose proof I as I0. destruct I as [Hn Hc Hf Hg Hb Ht].
+  destruct e as [ms| |sid ok|sid| | | | | ].
+  - (* EMsg *)
+    destruct (blk s) eqn:B; [exact SK|]. destruct (delivery s) as [i|] eqn:D; [|exact SK].
+    cbn [fst snd]. unfold wait_step. cbn [is_skip]. rewrite (delivery_wait_ok s m i I0 B D).
+    eexists; split; [reflexivity|].
+    destruct ms as [g0|g0 tmo eot watch|].
+    + (* add *) constructor; cbn.
+      * rewrite app_length, Hn. cbn. lia.
+      * intros j. rewrite resolved_app. apply Hc.
+      * intros j. rewrite objdone_app. apply Hf.
+      * intros j g [E|H].
+        { inversion E; subst. right; left. rewrite lookup_put_same. apply in_or_app. right. rewrite Hn. left; reflexivity. }
+        { destruct (Hg _ _ H) as [A|[A|[[w [A _]]|A]]]; try congruence.
+          - left. rewrite resolved_app. exact A.
+          - right; left. destruct (Nat.eq_dec g0 g) as [->|N].
+            + rewrite lookup_put_same. apply in_or_app. left; exact A.
+            + rewrite lookup_put_other by assumption. exact A.
+          - right; right; right. exact A. }
+      * discriminate.
+      * intros _ g t eot wa E. discriminate.
+    + (* wait *) cbn. destruct (lookup g0 (groups s)) as [|f0 fr] eqn:LK.
+      * constructor; cbn; auto; try discriminate.
+        { intros _ g t eot' wa E _. inversion E; subst. intros j H.
+          destruct (Hg _ _ H) as [A|[A|[[w [A _]]|A]]]; try congruence.
+          - left. rewrite Hc. exact A.
+          - rewrite LK in A. contradiction.
+          - right; right. exact A. }
+      * constructor; cbn; auto; try discriminate.
+        { intros j g H. destruct (Hg _ _ H) as [A|[A|[[w [A _]]|A]]]; try congruence; auto.
+          destruct (Nat.eq_dec g0 g) as [->|N].
+          - right; right; left. eexists; split; [reflexivity|]. cbn. split; auto. rewrite LK in A. exact A.
+          - right; left. rewrite lookup_remove_other by assumption. exact A. }
+        { intros w E. inversion E; subst; cbn. split; [eexists; reflexivity|]. split; [apply lookup_remove_same|discriminate]. }
+    + (* other *) constructor; cbn; auto; try discriminate.
+  - (* EEnd *)
+    destruct (blk s) eqn:B; [exact SK|]. destruct (delivery s) as [i|] eqn:D; [|exact SK].
+    cbn [fst snd]. unfold wait_step. cbn [is_skip]. rewrite (delivery_wait_ok s m i I0 B D).
+    eexists; split; [reflexivity|]. constructor; cbn; auto; try discriminate.
+  - (* EFinish *)
+    destruct (sget (stat s) sid) as [[|?|?]|] eqn:G; try exact SK.
+    cbn [fst snd]. eexists; split; [reflexivity|]. constructor; cbn; auto.
+    + rewrite sset_length. exact Hn.
+    + intros j. rewrite resolved_sset_fin by assumption. apply Hc.
+    + intros j H. destruct (Nat.eqb_spec sid j) as [->|N]; [reflexivity|].
+      rewrite objdone_sset_other in H by assumption. auto.
+    + intros j g H. rewrite resolved_sset_fin by assumption. auto.
+    + intros w E. destruct (Hb w E) as [A [B C]]. repeat split; auto.
+      intros F. eapply forallb_resolved_mono; [|apply C; exact F]. intros j. rewrite resolved_sset_fin by assumption. auto.
+    + intros B g t eot wa L R j H. destruct (Ht B g t eot wa L R j H) as [A|[[A A']|A]]; auto.
+      right; left. split; auto. cbn. destruct (Nat.eqb sid j); auto.
+  - (* EDone *)
+    destruct (sget (stat s) sid) as [[|ok|?]|] eqn:G; try exact SK.
+    cbn [fst snd]. eexists; split; [reflexivity|].
+    assert (M : forall j, resolved (stat s) j = true -> resolved (sset (stat s) sid (SDone ok)) j = true).
+    { intros j H. rewrite (resolved_sset_done _ _ _ _ _ G), H. apply orb_true_r. }
+    constructor; cbn.
+    + rewrite sset_length. exact Hn.
+    + intros j. rewrite (resolved_sset_done _ _ _ _ _ G). rewrite Hc. reflexivity.
+    + intros j H. destruct (Nat.eqb_spec sid j) as [->|N].
+      * apply Hf. unfold objdone. rewrite G. reflexivity.
+      * rewrite objdone_sset_other in H by assumption. auto.
+    + intros j g H. destruct (Hg _ _ H) as [A|[A|[[w [A [A1 A2]]]|A]]]; auto.
+      right; right; left. rewrite A. cbn. eexists; split; [reflexivity|].
+      destruct (rerelease_same (sset (stat s) sid (SDone ok)) w) as [E1 [E2 _]]. rewrite E1, E2. auto.
+    + intros w' E. destruct (blk s) as [w|] eqn:B; cbn in E; [|discriminate]. inversion E; subst w'.
+      destruct (rerelease_same (sset (stat s) sid (SDone ok)) w) as [E1 [E2 [E3 [E4 E5]]]].
+      rewrite E1, E2, E3, E4. destruct (Hb w eq_refl) as [A [A1 A2]]. repeat split; auto.
+      intros F. eapply forallb_resolved_mono; [exact M|]. apply A2. apply E5. exact F.
+    + intros B g t eot wa L R j H. destruct (blk s) eqn:B0; [discriminate|].
+      destruct (Ht eq_refl g t eot wa L R j H) as [A|[A|A]]; auto.
+      left. cbn. rewrite A. apply orb_true_r.
+  - (* ETimeout *)
+    destruct (blk s) as [w|] eqn:B; [|exact SK]. destruct (w_tmo w) eqn:TM; [|exact SK]. destruct (w_sp w) eqn:SP; [|exact SK].
+    cbn [fst snd]. eexists; split; [reflexivity|].
+    destruct (Hb w eq_refl) as [A [A1 A2]].
+    destruct w as [g0 futs tmo eot sp wf wp]; cbn in *.
+    constructor; cbn; auto.
+    + intros j g H. destruct (Hg _ _ H) as [X|[X|[[w0 [X [X1 X2]]]|X]]]; auto.
+      inversion X; subst w0. right; right; left. eexists; split; [reflexivity|]. destruct wp; cbn in *; auto.
+    + intros w' E. inversion E; subst w'. destruct wp; cbn; repeat split; auto; discriminate.
+    + discriminate.
+  - (* EWakeS *)
+    destruct (blk s) as [w|] eqn:B; [|exact SK]. destruct (w_sp w) as [[|]|] eqn:SP; try exact SK.
+    cbn [fst snd]. eexists; split; [reflexivity|].
+    destruct (Hb w eq_refl) as [A [A1 A2]].
+    constructor; cbn; auto.
+    + intros j g H. destruct (Hg _ _ H) as [X|[X|[[w0 [X [X1 X2]]]|X]]]; auto.
+      inversion X; subst w0. right; right; left. eexists; split; [reflexivity|]. cbn. auto.
+    + intros w' E. inversion E; subst w'. cbn. repeat split; auto.
+      intros F. inversion F as [F1]. unfold unresolved in F1. destruct (forallb (resolved (stat s)) (w_futs w)); auto; discriminate.
+    + discriminate.
+  - (* EResume *)
+    destruct (blk s) as [w|] eqn:B; [|exact SK]. destruct (Hb w eq_refl) as [[wa A] [A1 A2]].
+    destruct (w_sp w) as [|[|]] eqn:SP; try exact SK.
+    + (* woke with an unresolved future: the group is put back *)
+      cbn [fst snd]. eexists; split; [reflexivity|]. constructor; cbn; auto; try discriminate.
+      * intros j g H. destruct (Hg _ _ H) as [X|[X|[[w0 [X [X1 X2]]]|X]]]; auto.
+        { right; left. destruct (Nat.eq_dec (w_g w) g) as [E|N].
+          - subst g. rewrite A1 in X. contradiction.
+          - rewrite lookup_put_other by assumption. exact X. }
+        { inversion X; subst w0. subst g. right; left. rewrite lookup_put_same. exact X2. }
+      * intros _ g t eot wa' L R. rewrite A in L. inversion L; subst. intros j H.
+        destruct (w_eot w) eqn:EO; [discriminate|]. assert (R1 : forallb (objdone (stat s)) (w_futs w) = true) by congruence.
+        destruct (Hg _ _ H) as [X|[X|[[w0 [X [X1 X2]]]|X]]]; auto.
+        { left. rewrite Hc. exact X. }
+        { rewrite A1 in X. contradiction. }
+        { inversion X; subst w0. right; left. split; auto. apply Hf.
+          rewrite forallb_forall in R1. apply R1. exact X2. }
+    + (* every future resolved *)
+      cbn [fst snd]. eexists; split; [reflexivity|]. specialize (A2 eq_refl). rewrite forallb_forall in A2.
+      constructor; cbn; auto; try discriminate.
+      * intros j g H. destruct (Hg _ _ H) as [X|[X|[[w0 [X [X1 X2]]]|X]]]; auto.
+        inversion X; subst w0. left. apply A2. exact X2.
+      * intros _ g t eot wa' L R. rewrite A in L. inversion L; subst. intros j H.
+        destruct (Hg _ _ H) as [X|[X|[[w0 [X [X1 X2]]]|X]]]; auto.
+        { left. rewrite Hc. exact X. }
+        { rewrite A1 in X. contradiction. }
+        { inversion X; subst w0. left. rewrite Hc. apply A2. exact X2. }
+  - (* EWakeW *)
+    destruct (blk s) as [w|] eqn:B; [|exact SK]. destruct (w_wp w) as [|[|]| |] eqn:WP; try exact SK.
+    cbn [fst snd]. eexists; split; [reflexivity|].
+    destruct (Hb w eq_refl) as [A [A1 A2]].
+    constructor; cbn; auto.
+    + intros j g H. destruct (Hg _ _ H) as [X|[X|[[w0 [X [X1 X2]]]|X]]]; auto.
+      inversion X; subst w0. right; right; left. eexists; split; [reflexivity|]. cbn. auto.
+    + intros w' E. inversion E; subst w'. cbn. repeat split; auto.
+    + discriminate.
+  - (* ECancelCb *)
+    destruct (blk s) as [w|] eqn:B; [|exact SK]. destruct (w_wp w) as [|?| |] eqn:WP; try exact SK.
+    destruct (w_sp w) eqn:SP; try exact SK.
+    destruct (Hb w eq_refl) as [[wa A] [A1 A2]].
+    cbn [fst snd]. unfold wait_step. cbn [is_skip]. rewrite A.
+    eexists; split; [reflexivity|]. constructor; cbn; auto; try discriminate.
+    intros j g H. destruct (Hg _ _ H) as [X|[X|[[w0 [X [X1 X2]]]|X]]]; auto.
+    + inversion X; subst w0. subst g. right; right; right. rewrite Nat.eqb_refl. reflexivity.
+    + right; right; right. rewrite X. apply orb_true_r.
+Qed.
+
+Lemma GI_run evs : forall s m, GI s m -> exists m', wait_run false m (snd (run_tr s evs)) = Some m' /\ GI (fst (run_tr s evs)) m'.
+Proof.
+  induction evs as [|e r IH]; intros s m I.
+  - exists m. split; [reflexivity|exact I].
+  - rewrite run_tr_cons. cbn [fst snd wait_run].
+    destruct (GI_step s m e I) as [m1 [E I1]]. rewrite E. apply IH. exact I1.
+Qed.
+
+Theorem wait_true_sound : forall evs : list event, mon_wait false (snd (run_tr init evs)) = true.
+Proof.
+  intros evs. unfold mon_wait. destruct (GI_run evs init g0 GI_init) as [m' [E _]]. rewrite E. reflexivity.
+Qed.
